@@ -108,7 +108,18 @@ Definition created (x : positive) (body : list ev) : Prop :=
 Definition fed (x : positive) (w : list ev) : Prop :=
   exists a b c, w = a ++ LoopOut :: b ++ Feed x :: c /\ (forall e, In e b -> is_marker e = false).
 
-Definition sec_ok (p : string) (body : list ev) : Prop :=
+(* intersectors created between the dump of the previous Einsum and this section's beginCollect: the
+   Create events that end the preceding segment (nothing but creations after them) *)
+Definition is_create (e : ev) : bool := match e with Create _ => true | _ => false end.
+Fixpoint carry_rev (l : list ev) : list ev :=
+  match l with
+  | Create x :: r => Create x :: carry_rev r
+  | _ => []
+  end.
+Definition carry (l : list ev) : list ev := rev (carry_rev (rev l)).
+
+(* c = the creations carried over from the preceding segment *)
+Definition sec_ok (p : string) (c body : list ev) : Prop :=
   (* closed exactly once, at nesting depth 0, after every loop *)
   (exists post, body = window body ++ End :: post /\ ~ In End post
                 /\ (forall e, In e post -> is_marker e = false)
@@ -118,7 +129,7 @@ Definition sec_ok (p : string) (body : list ev) : Prop :=
   (* every trace handed to a model was produced earlier in the section *)
   /\ (forall a e b q, body = a ++ e :: b -> In q (needs e) -> produced p a q)
   (* every intersector queried was created before the loops and fed at a loop exit inside the window *)
-  /\ (forall x, In (Query x) body -> created x body /\ fed x (window body)).
+  /\ (forall x, In (Query x) body -> created x (c ++ body) /\ fed x (window body)).
 
 (* ------------------------------------------------------------------------------------------ *)
 (* Sections                                                                                    *)
@@ -131,10 +142,17 @@ Fixpoint split_secs (l : list ev) : list ev * list (string * list ev) :=
   | e :: r => let (b, ss) := split_secs r in (e :: b, ss)
   end.
 
-(* n Einsums: nothing (no event, no loop) before the first beginCollect, exactly n collections, each in order *)
+Fixpoint secs_ok (c : list ev) (secs : list (string * list ev)) : Prop :=
+  match secs with
+  | [] => True
+  | s :: r => sec_ok (fst s) c (snd s) /\ secs_ok (carry (snd s)) r
+  end.
+
+(* n Einsums: nothing but intersector creations (no other event, no loop) before the first beginCollect,
+   exactly n collections, each of them ok *)
 Definition prog_ok (n : nat) (l : list ev) : Prop :=
-  fst (split_secs l) = [] /\ length (snd (split_secs l)) = n
-  /\ Forall (fun s => sec_ok (fst s) (snd s)) (snd (split_secs l)).
+  (forall e, In e (fst (split_secs l)) -> is_create e = true) /\ length (snd (split_secs l)) = n
+  /\ secs_ok (carry (fst (split_secs l))) (snd (split_secs l)).
 
 (* ------------------------------------------------------------------------------------------ *)
 (* Decision procedure with diagnostics                                                         *)
@@ -201,17 +219,23 @@ Definition window_failures (body : list ev) : list failure :=
       ++ (match depth (window body) 0 with Some O => [] | _ => [FEndNested] end)
   end.
 
-Definition isect_failures (body : list ev) : list failure :=
-  flat_map (fun x => (if createdb x body then [] else [FNotCreated x])
+Definition isect_failures (c body : list ev) : list failure :=
+  flat_map (fun x => (if createdb x (c ++ body) then [] else [FNotCreated x])
                      ++ (if fedb x (window body) false then [] else [FNotFed x])) (queries body).
 
-Definition sec_failures (p : string) (body : list ev) : list failure :=
-  window_failures body ++ map FBad (bads body) ++ prod_failures p [] body ++ isect_failures body.
+Definition sec_failures (p : string) (c body : list ev) : list failure :=
+  window_failures body ++ map FBad (bads body) ++ prod_failures p [] body ++ isect_failures c body.
+
+Fixpoint secs_failures (c : list ev) (secs : list (string * list ev)) : list failure :=
+  match secs with
+  | [] => []
+  | s :: r => sec_failures (fst s) c (snd s) ++ secs_failures (carry (snd s)) r
+  end.
 
 Definition prog_failures (n : nat) (l : list ev) : list failure :=
-  (match fst (split_secs l) with [] => [] | _ => [FPreamble] end)
+  (if forallb is_create (fst (split_secs l)) then [] else [FPreamble])
   ++ (if Nat.eqb (length (snd (split_secs l))) n then [] else [FCount n (length (snd (split_secs l)))])
-  ++ flat_map (fun s => sec_failures (fst s) (snd s)) (snd (split_secs l)).
+  ++ secs_failures (carry (fst (split_secs l))) (snd (split_secs l)).
 
 (* ------------------------------------------------------------------------------------------ *)
 (* Reading an emitted program                                                                  *)
